@@ -274,6 +274,15 @@ package api
 //@   at call (*DatabaseAPI).send assert arg2 == dbMsgTypeUpd || arg2 == dbMsgTypeNew || arg2 == dbMsgTypeDel || arg2 == dbMsgTypeWarning || arg2 == dbMsgTypeDone
 //@   at call (*DatabaseAPI).send ghost terminals = terminals + (isTerminal(arg2) ? 1 : 0)
 //@   at call (*Subscription).Cancel ghost shut = true
+// a deleted record is announced as del (key only), never as new or upd: the notification type is
+// decided after the deletion mark of this record has been read
+//@   ghost var delSeen bool = false
+//@   ghost var del bool = false
+//@   at after (*Meta).IsDeleted ghost delSeen = true
+//@   at after (*Meta).IsDeleted ghost del = ret0
+//@   at call (*DatabaseAPI).send assert arg2 == dbMsgTypeDel ==> delSeen && del && len(arg4) == 0
+//@   at call (*DatabaseAPI).send assert arg2 == dbMsgTypeNew || arg2 == dbMsgTypeUpd ==> delSeen && !del
+//@   at select ghost delSeen = false
 //@   at return assert terminals == 1 || (shut && terminals == 0)
 //@   loop 0 invariant terminals == 0 && !shut
 
